@@ -129,6 +129,19 @@ func buildLifted(mode Mode, asserts []*term.Term) *Script {
 					cond = "(<= " + diff + " 0.0)"
 				}
 				def(t, "(ite "+cond+" "+a.n+" "+b.n+")", "(ite "+cond+" "+a.d+" "+b.d+")")
+			case "ffloor", "fceil", "ftrunc", "fround":
+				x := val(af(0))
+				fl := "(to_real (to_int " + x + "))"
+				e := fl
+				switch t.Op {
+				case "fceil":
+					e = "(- (to_real (to_int (- " + x + "))))"
+				case "ftrunc":
+					e = "(ite (>= " + x + " 0.0) " + fl + " (- (to_real (to_int (- " + x + ")))))"
+				case "fround":
+					e = "(ite (>= " + x + " 0.0) (to_real (to_int (+ " + x + " 0.5))) (- (to_real (to_int (+ (- " + x + ") 0.5)))))"
+				}
+				def(t, e, one)
 			case "fconv":
 				fr[t.ID] = af(0)
 			case "i2f":
